@@ -5,6 +5,7 @@ CONSTANTS
   Ops = {o1, o2, o3}
   Kind <- KindSSB
   FdOf <- FdSame
+  Dir <- DirR
   Fds = {1, 2}
   Eager = FALSE
 SPECIFICATION Spec
